@@ -24,7 +24,7 @@ package session
 //@   requires [wfpkt]    wfpkt(pkt)
 //@   ensures  [saved]    hasID(pkt) ==> has(s.packets, idOf(pkt)) && s.packets[idOf(pkt)] == pkt
 //@   ensures  [others]   forall k packet.ID :: !(hasID(pkt) && k == idOf(pkt)) ==> (has(s.packets, k) <==> old(has(s.packets, k))) && s.packets[k] == old(s.packets[k])
-//@   ensures  [order-kept] !(hasID(pkt) && !old(has(s.packets, idOf(pkt)))) ==> s.order == old(s.order)
+//@   ensures  [order-kept] !(hasID(pkt) && !old(has(s.packets, idOf(pkt)))) ==> s.order == old(s.order) && forall i int {s.order[i]} :: 0 <= i && i < len(s.order) ==> s.order[i] == old(s.order[i])
 //@   ensures  [order-appended] hasID(pkt) && !old(has(s.packets, idOf(pkt))) ==> len(s.order) == old(len(s.order)) + 1 && s.order[old(len(s.order))] == idOf(pkt) && forall i int {s.order[i]} :: 0 <= i && i < old(len(s.order)) ==> s.order[i] == old(s.order[i])
 //@   ensures  [order-array] arr(s.order) == old(arr(s.order)) || fresh(s.order)
 //@   ensures  [released] held[s.mutex] == 0
@@ -72,6 +72,20 @@ package session
 //@   ensures [empty] forall k packet.ID :: !has(s.packets, k)
 //@   ensures [unlocked] held[s.mutex] == 0
 //@   ensures [order-nil] arr(s.order) == 0
+//
+// A store built from a list is the store obtained by saving the list's packets
+// one after the other: its order list names present ids, each once.
+//@ func NewPacketStoreWithPackets(packets []packet.Generic) (s *PacketStore)
+//@   requires [packets] forall i int {packets[i]} :: 0 <= i && i < len(packets) ==> wfpkt(packets[i])
+//@   ensures [fresh] s != nil && fresh(s) && s.packets != nil && held[s.mutex] == 0
+//@   ensures [present] forall i int {s.order[i]} :: 0 <= i && i < len(s.order) ==> has(s.packets, s.order[i])
+//@   ensures [distinct] forall i int, j int {s.order[i], s.order[j]} :: 0 <= i && i < j && j < len(s.order) ==> s.order[i] != s.order[j]
+//@   ensures [only-listed] forall k packet.ID {s.packets[k]} :: has(s.packets, k) ==> exists i int {packets[i]} :: 0 <= i && i < len(packets) && s.packets[k] == packets[i]
+//@   modifies nothing
+//@   loop 1 invariant [store] 0 <= rangeindex + 1 && rangeindex + 1 <= len(packets) && store != nil && fresh(store) && store.packets != nil && fresh(store.packets) && held[store.mutex] == 0 && (arr(store.order) == 0 || fresh(store.order))
+//@   loop 1 invariant [present] forall i int {store.order[i]} :: 0 <= i && i < len(store.order) ==> has(store.packets, store.order[i])
+//@   loop 1 invariant [distinct] forall i int, j int {store.order[i], store.order[j]} :: 0 <= i && i < j && j < len(store.order) ==> store.order[i] != store.order[j]
+//@   loop 1 invariant [only-listed] forall k packet.ID {store.packets[k]} :: has(store.packets, k) ==> exists i int {packets[i]} :: 0 <= i && i <= rangeindex && store.packets[k] == packets[i]
 //
 //@ func (s *MemorySession) storeForDirection(dir Direction) (st *PacketStore)
 //@   requires [dir] dir == 0 || dir == 1
